@@ -540,6 +540,13 @@ QTextQueries ==
     \cup {Q("SELECT", "RESOURCE", "x", <<c>>, <<>>) : c \in {CId(i) : i \in QResIds} \cup {CKey(p[1], p[2], q) : p \in QSetKeys, q \in BOOLEAN}
                                                             \cup {CKeyVal(p[1], p[2], "=", StrVal("v1"), q) : p \in QSetKeys, q \in BOOLEAN}}
     \cup {Q("SELECT", "RESOURCE", "x", <<>>, <<Q("SELECT", "TEXT", "y", <<CResVar("x", FALSE)>>, <<>>)>>)}
+    \* KEY and DATASET results
+    \cup {Q("SELECT", "KEY", "x", <<>>, <<>>), Q("SELECT", "DATASET", "x", <<>>, <<>>)}
+    \cup {Q("SELECT", "KEY", "x", <<c>>, <<>>) : c \in {CSet(st.sets[s].id, FALSE) : s \in LiveSets(st)} \cup {CAnn(i, q, FALSE) : i \in QAnnIds, q \in BOOLEAN}}
+    \cup {Q("SELECT", "KEY", "x", <<c, CLimit(l[1], l[2])>>, <<>>) : c \in {CSet(st.sets[s].id, FALSE) : s \in LiveSets(st)}, l \in {<<0, 1>>, <<1, 0>>, <<-1, 0>>}}
+    \cup {Q("SELECT", "DATASET", "x", <<c>>, <<>>) : c \in {CId(st.sets[s].id) : s \in LiveSets(st)} \cup {CSet(st.sets[s].id, FALSE) : s \in LiveSets(st)}}
+    \cup {Q("SELECT", "ANNOTATION", "x", <<c>>, <<Q("SELECT", "KEY", "y", <<CAnnVar("x", q, FALSE)>>, <<>>)>>) : c \in {d \in QAnnCore : d.k \in {"Res", "Key"}}, q \in BOOLEAN}
+    \cup {Q("SELECT", "DATA", "x", <<c>>, <<Q("SELECT", "KEY", "y", <<CDataVar("x", FALSE)>>, <<>>)>>) : c \in {CSet(st.sets[s].id, FALSE) : s \in LiveSets(st)}}
 QueryOps == {RO("Query", [q |-> q, form |-> f]) : q \in QueriesOf, f \in {"text", "built"}}
 TextQueryOps == IF NoOrphans THEN {RO("Query", [q |-> q, form |-> f]) : q \in QTextQueries, f \in {"text", "built"}} ELSE {}
 
